@@ -29,7 +29,8 @@ from pymbolic.mapper import IdentityMapper
 from pytools import UniqueNameGenerator
 
 from dagrt.codegen.dag_ast import (
-    ASTIdentityMapper, Block, IfThen, StatementWrapper, get_statements_in_ast)
+    ASTIdentityMapper, Block, IfThen, LoopVariableFinder, StatementWrapper,
+    get_statements_in_ast)
 
 
 __doc__ = """
@@ -44,11 +45,23 @@ def get_stmt_id_generator(statements):
     return UniqueNameGenerator({stmt.id for stmt in statements})
 
 
-def get_var_name_generator(statements):
+class _ASTNameFinder(LoopVariableFinder):
+    """Finds the loop variables and the variables occurring in loop bounds
+    and conditions of an AST."""
+
+    def map_variable(self, expr):
+        return {expr.name}
+
+
+def get_var_name_generator(statements, phase_ast=None):
     existing_variables = set()
     for stmt in statements:
         existing_variables.update(stmt.get_written_variables())
         existing_variables.update(stmt.get_read_variables())
+    if phase_ast is not None:
+        # The loops of a statement have been peeled off into the AST, so
+        # their variables and bounds are not known to the statement.
+        existing_variables.update(_ASTNameFinder()(phase_ast))
     return UniqueNameGenerator(existing_variables)
 
 
@@ -88,7 +101,7 @@ def apply_statement_rewriter(rewriter_cls, phase_ast):
     statements = list(get_statements_in_ast(phase_ast))
     rewriter = rewriter_cls(
             stmt_id_gen=get_stmt_id_generator(statements),
-            var_name_gen=get_var_name_generator(statements))
+            var_name_gen=get_var_name_generator(statements, phase_ast))
 
     return rewriter(phase_ast)
 
